@@ -32,22 +32,27 @@ MZ      == <<One, Zero, Zero, Neg(One)>>
 MRX(k)  == <<Cos8(k), Mul(Neg(I), Sin8(k)), Mul(Neg(I), Sin8(k)), Cos8(k)>>
 MRY(k)  == <<Cos8(k), Neg(Sin8(k)), Sin8(k), Cos8(k)>>
 MRZ(k)  == <<W(-k), Zero, Zero, W(k)>>
+\* T = rz(pi/4) up to the (unobservable) global phase e^{-i pi/8}; used by the wide/probe model to reach
+\* non-stabiliser states whose measurement probabilities are not 0, 1/2, 1  (e.g. sin^2(pi/8))
+MT      == <<One, Zero, Zero, W(1)>>
 
 Matrix(g,k) == CASE g = "h" -> MH [] g = "x" -> MX [] g = "y" -> MY [] g = "z" -> MZ
-                 [] g = "rx" -> MRX(k) [] g = "ry" -> MRY(k) [] g = "rz" -> MRZ(k)
+                 [] g = "rx" -> MRX(k) [] g = "ry" -> MRY(k) [] g = "rz" -> MRZ(k) [] g = "t" -> MT
 
 \* U^dagger U = I, exactly
 Unitary(m) == /\ Add(Mul(Conj(m[1]),m[1]), Mul(Conj(m[3]),m[3])) = One
               /\ Add(Mul(Conj(m[2]),m[2]), Mul(Conj(m[4]),m[4])) = One
               /\ Add(Mul(Conj(m[1]),m[2]), Mul(Conj(m[3]),m[4])) = Zero
 
+\* TLCEval forces TLC to evaluate the function eagerly (otherwise long behaviours build chains of
+\* lazily evaluated functions); it is the identity semantically.
 Apply1(vec, n, q, m) ==
-   [i \in 0..(2^n - 1) |->
+   TLCEval([i \in 0..(2^n - 1) |->
        IF Bit(i,q) = 0 THEN Add(Mul(m[1], vec[i]), Mul(m[2], vec[Flip(i,q)]))
-                       ELSE Add(Mul(m[3], vec[Flip(i,q)]), Mul(m[4], vec[i]))]
+                       ELSE Add(Mul(m[3], vec[Flip(i,q)]), Mul(m[4], vec[i]))])
 
 ApplyCX(vec, n, c, t) ==
-   [i \in 0..(2^n - 1) |-> IF Bit(i,c) = 1 THEN vec[Flip(i,t)] ELSE vec[i]]
+   TLCEval([i \in 0..(2^n - 1) |-> IF Bit(i,c) = 1 THEN vec[Flip(i,t)] ELSE vec[i]])
 
 Active(s,q) == q \in Qubits(s) /\ ~s.meas[q]
 
@@ -66,23 +71,27 @@ Log2Inv(p, k) == IF k > 40 THEN -1 ELSE IF REqDyadic(p, 1, k) THEN k ELSE Log2In
 Collapse(s,q,o) ==
    LET p == IF o = 1 THEN P1(s,q) ELSE P0(s,q)
        j == Log2Inv(p, 0)
-   IN [i \in Idx(s) |-> IF Bit(i,q) = o THEN MulSqrt2(s.vec[i], j) ELSE Zero]
+   IN TLCEval([i \in Idx(s) |-> IF Bit(i,q) = o THEN MulSqrt2(s.vec[i], j) ELSE Zero])
 Collapsible(s,q,o) == Log2Inv(IF o = 1 THEN P1(s,q) ELSE P0(s,q), 0) >= 0
 
 \* draw r = num/2^e in [0,1):  outcome 1 iff r < P1   (the documented sampling rule)
 Outcome(s,q,num,e) == IF RatLess(num, e, P1(s,q)) THEN 1 ELSE 0
 
+\* un-normalised projection (any state, any probability): the harness normalises numerically
+Project(s,q,o) == [i \in Idx(s) |-> IF Bit(i,q) = o THEN s.vec[i] ELSE Zero]
+ProjectReset(s,q,o) == LET c == Project(s,q,o) IN IF o = 1 THEN [i \in Idx(s) |-> c[Flip(i,q)]] ELSE c
+
 (* ---- the public operations ---- *)
 Alloc(s) == [n |-> s.n + 1,
-             vec |-> [i \in 0..(2^(s.n+1) - 1) |-> IF i < Dim(s) THEN s.vec[i] ELSE Zero],
-             meas |-> [q \in 0..s.n |-> IF q < s.n THEN s.meas[q] ELSE FALSE]]
+             vec |-> TLCEval([i \in 0..(2^(s.n+1) - 1) |-> IF i < Dim(s) THEN s.vec[i] ELSE Zero]),
+             meas |-> TLCEval([q \in 0..s.n |-> IF q < s.n THEN s.meas[q] ELSE FALSE])]
 
 Gate1(s,g,q,k) == [s EXCEPT !.vec = Apply1(s.vec, s.n, q, Matrix(g,k))]
 CX(s,c,t)      == [s EXCEPT !.vec = ApplyCX(s.vec, s.n, c, t)]
 MeasureTo(s,q,o) == [s EXCEPT !.vec = Collapse(s,q,o), !.meas[q] = TRUE]
 \* reset = sample as a measurement would, collapse, move a |1> result into |0>, clear flag
 ResetTo(s,q,o) == LET c == Collapse(s,q,o)
-                      v == IF o = 1 THEN [i \in Idx(s) |-> c[Flip(i,q)]] ELSE c
+                      v == IF o = 1 THEN TLCEval([i \in Idx(s) |-> c[Flip(i,q)]]) ELSE c
                   IN [s EXCEPT !.vec = v, !.meas[q] = FALSE]
 
 Gates1   == {"h","x","y","z"}
@@ -96,6 +105,7 @@ Rots     == {"rx","ry","rz"}
 Enabled(s,a,MaxN) ==
    CASE a[1] = "alloc"   -> s.n < MaxN
      [] a[1] \in Gates1  -> Active(s,a[2])
+     [] a[1] = "t"       -> Active(s,a[2])
      [] a[1] \in Rots    -> Active(s,a[2])
      [] a[1] = "cx"      -> Active(s,a[2]) /\ Active(s,a[3]) /\ a[2] # a[3]
      [] a[1] = "measure" -> Active(s,a[2])
@@ -104,10 +114,15 @@ Enabled(s,a,MaxN) ==
 Step(s,a,DrawExp) ==
    CASE a[1] = "alloc"   -> Alloc(s)
      [] a[1] \in Gates1  -> Gate1(s,a[1],a[2],0)
+     [] a[1] = "t"       -> Gate1(s,a[1],a[2],0)
      [] a[1] \in Rots    -> Gate1(s,a[1],a[2],a[3])
      [] a[1] = "cx"      -> CX(s,a[2],a[3])
      [] a[1] = "measure" -> MeasureTo(s,a[2],Outcome(s,a[2],a[3],DrawExp))
      [] a[1] = "reset"   -> ResetTo(s,a[2],Outcome(s,a[2],a[3],DrawExp))
+
+(* reduced density matrix of the qubits other than q: entry (i,j), for i,j with bit q = 0 *)
+Rho(s,q,i,j) == Add(Mul(s.vec[i], Conj(s.vec[j])),
+                    Mul(s.vec[Flip(i,q)], Conj(s.vec[Flip(j,q)])))
 
 (* ---- design-level properties of a state ---- *)
 UnitNormS(s)  == RIsOne(TotalNorm(s))
